@@ -26,5 +26,7 @@ ProlScale == IF Exact /\ HasNodal(El, Fm, Dm) THEN Tab.den * IPow(Tab.S, Tab.D) 
 Emit == Supported(El, Fm, Dm) =>
   PrintT(ToJson([el |-> El, fam |-> Fm, dim |-> Dm, sig |-> Sig(El, Fm, Dm), nloc |-> NumLocalDofs(Sig(El, Fm, Dm), Fm, Dm),
                  conf |-> Conformity(El), deg |-> PolyDegree(El), nested |-> Nested(El, Fm), exact |-> Exact,
-                 nodal |-> Exact /\ HasNodal(El, Fm, Dm), pscale |-> ProlScale]))
+                 nodal |-> Exact /\ HasNodal(El, Fm, Dm), pscale |-> ProlScale, exactinterp |-> ExactInterp(El, Fm),
+                 monos |-> LET M == LocalMonomials(El, Fm, Dm) IN
+                           SetToSeq({[e |-> x, t |-> 0] : x \in M.total}) \o SetToSeq({[e |-> x, t |-> 1] : x \in M.tensor})]))
 =============================================================================
